@@ -86,6 +86,7 @@ func runC20(c *Ctx) {
 							"the loop is left only when the elements are exhausted", "the loop over the variadic argument can be left early (break/return in its body): the elements behind the one that triggers the exit are not inserted / deleted")
 					}
 					c.R.RequireMin("R20.6", spec[1]+"."+m.Name()+": loops over the variadic argument", nL, 1)
+					checkUniformMutator(c, p, fn, va, spec[1]+"."+m.Name())
 				}
 				continue
 			}
@@ -100,6 +101,9 @@ func runC20(c *Ctx) {
 			checkSetMethod(c, p, fn, spec[1])
 			if m.Name() == "Equal" {
 				checkSetEqual(c, p, fn, spec[1])
+			}
+			if m.Name() == "Union" {
+				checkUnionGuard(c, p, fn, spec[1])
 			}
 		}
 	}
@@ -275,6 +279,29 @@ func checkHeapAdapter(c *Ctx, p *core.Prog) {
 			if _, isStruct := n.Underlying().(*types.Struct); isStruct {
 				heapT, heapField = n, core.StructOf(qT).Field(i).Name()
 			}
+		}
+	}
+	// by behaviour: the named type of the package that container/heap works on (its pointer has Push, Pop and Swap) - the
+	// heap may also be the queue's own struct under another name (type heapAdapter Queue)
+	if sc := qT.Obj().Pkg().Scope(); sc != nil {
+		var byMethods *types.Named
+		for _, name := range sc.Names() {
+			tn, ok := sc.Lookup(name).(*types.TypeName)
+			if !ok {
+				continue
+			}
+			n, ok := tn.Type().(*types.Named)
+			if !ok || core.StructOf(n) == nil {
+				continue
+			}
+			ms := p.SSA.MethodSets.MethodSet(types.NewPointer(n))
+			has := func(m string) bool { return ms.Lookup(n.Obj().Pkg(), m) != nil || ms.Lookup(nil, m) != nil }
+			if has("Push") && has("Pop") && has("Swap") && has("Less") && has("Len") {
+				byMethods = n
+			}
+		}
+		if byMethods != nil {
+			heapT = byMethods
 		}
 	}
 	if !c.R.Anchor(heapT != nil, "pq.Queue: heap field") {
@@ -485,7 +512,7 @@ func checkHeapAdapter(c *Ctx, p *core.Prog) {
 			}
 			// heap argument is &pq.heap; remaining arguments are the parameters in order
 			args := call.Common().Args
-			if mi, isMI := args[0].(*ssa.MakeInterface); !isMI || !strings.HasSuffix(core.AP(mi.X), "."+heapField) {
+			if mi, isMI := args[0].(*ssa.MakeInterface); !isMI || !ownHeap(mi.X, fn.Params[0], heapField, 0) {
 				ok, why = false, "the heap passed is not the queue's own heap"
 			}
 			for i := 1; i < len(args); i++ {
@@ -733,4 +760,166 @@ func checkHeapLengths(c *Ctx, p *core.Prog, heapT *types.Named, itemsField strin
 		c.R.Check(bad == "", "R20.5", "pqHeap: "+j.what+" on every path", p.Pos(fn.Pos()), "length algebra over every entry-to-return path", bad+": container/heap moves the element to remove to the last cell and expects Pop to drop exactly that cell (Push: to add exactly the new one); otherwise an element is handed out and stays queued, or is lost")
 	}
 	c.R.RequireMin("R20.5", "entry-to-return paths of Push/Pop/Swap evaluated", nPaths, 3)
+}
+
+
+// checkUniformMutator: R20.10. Insert and Delete treat every element alike: in the loop over the elements given, what is
+// done with an element (the map update, the delete, a call that is handed the element) does not stand behind a test inside
+// the loop - a set that refuses some value (the empty string, zero, a negative number) is not a set over its element type.
+func checkUniformMutator(c *Ctx, p *core.Prog, fn *ssa.Function, va *ssa.Parameter, name string) {
+	cdeps := core.NewPostDom(fn).TransitiveControlDeps()
+	for _, rl := range rangeLoopsOf(fn) {
+		if core.Unspill(rl.over) != ssa.Value(va) {
+			continue
+		}
+		loop := naturalLoop(rl.header)
+		nAct, nUncond := 0, 0
+		where := ""
+		for _, b := range fn.Blocks {
+			if !loop[b] {
+				continue
+			}
+			for _, in := range b.Instrs {
+				act := false
+				switch x := in.(type) {
+				case *ssa.MapUpdate:
+					act = true
+				case *ssa.Call:
+					if bi, ok := x.Call.Value.(*ssa.Builtin); ok && bi.Name() == "delete" {
+						act = true
+					} else if cal := x.Call.StaticCallee(); cal != nil && core.InRepo(cal) {
+						act = true
+					}
+				}
+				if !act {
+					continue
+				}
+				nAct++
+				cond := false
+				for d := range cdeps[b] {
+					if loop[d] && d != rl.header {
+						cond = true
+					}
+				}
+				if cond {
+					where = p.Pos(in.Pos())
+				} else {
+					nUncond++
+				}
+			}
+		}
+		if nAct == 0 {
+			c.R.Undecided("R20.10", name+": what the loop does with an element", p.Pos(fn.Pos()), "no map update, delete or call found in the loop over the elements")
+			continue
+		}
+		c.R.Check(nUncond == nAct, "R20.10", name+": every element given is treated alike", p.Pos(fn.Pos()),
+			fmt.Sprintf("%d action(s) in the loop over the elements, none behind a test", nAct),
+			"the action at "+where+" stands behind a test inside the loop over the elements: some values are not inserted / deleted, so the set is not a set over its whole element type")
+	}
+}
+
+// checkUnionGuard: R20.11. The union holds the argument's elements whatever the receiver holds: the loop that copies the
+// argument's elements runs unless a test on the argument alone (nil, empty) says there is nothing to copy. A test that
+// involves the receiver (or the copy made of it) in front of that loop drops the argument's elements for some receivers.
+func checkUnionGuard(c *Ctx, p *core.Prog, fn *ssa.Function, typ string) {
+	if len(fn.Params) < 2 {
+		return
+	}
+	recv := ssa.Value(fn.Params[0])
+	var dep func(v ssa.Value, seen map[ssa.Value]bool) bool
+	dep = func(v ssa.Value, seen map[ssa.Value]bool) bool {
+		if v == recv {
+			return true
+		}
+		if seen[v] {
+			return false
+		}
+		seen[v] = true
+		in, ok := v.(ssa.Instruction)
+		if !ok {
+			return false
+		}
+		for _, op := range in.Operands(nil) {
+			if *op != nil && dep(*op, seen) {
+				return true
+			}
+		}
+		return false
+	}
+	cdeps := core.NewPostDom(fn).TransitiveControlDeps()
+	n := 0
+	// the places where the argument's elements are merged: a loop over the argument's map, or a call of a repository
+	// function that is handed the argument's map
+	var sites []*ssa.BasicBlock
+	for _, rl := range rangeLoopsOf(fn) {
+		if _, isMap := rl.over.Type().Underlying().(*types.Map); !isMap {
+			continue
+		}
+		if dep(rl.over, map[ssa.Value]bool{}) {
+			continue // a loop over the receiver's own elements
+		}
+		sites = append(sites, rl.header)
+	}
+	for _, call := range core.CallsIn(fn) {
+		cal := call.Common().StaticCallee()
+		if cal == nil || !core.InRepo(cal) {
+			continue
+		}
+		for _, a := range call.Common().Args {
+			if _, isMap := a.Type().Underlying().(*types.Map); isMap && !dep(a, map[ssa.Value]bool{}) {
+				sites = append(sites, call.Block())
+				break
+			}
+		}
+	}
+	for _, site := range sites {
+		rl := struct{ header *ssa.BasicBlock }{site}
+		n++
+		bad := ""
+		for d := range cdeps[rl.header] {
+			if d == rl.header || len(d.Instrs) == 0 {
+				continue
+			}
+			if ifi, ok := d.Instrs[len(d.Instrs)-1].(*ssa.If); ok && dep(ifi.Cond, map[ssa.Value]bool{}) {
+				bad = p.Pos(ifi.Cond.Pos())
+				if bad == "-" {
+					bad = p.Pos(d.Instrs[0].Pos())
+				}
+			}
+		}
+		c.R.Check(bad == "", "R20.11", typ+".Union: the argument's elements are copied whatever the receiver holds", p.Pos(fn.Pos()),
+			"the loop over the argument's elements is guarded by tests on the argument only",
+			"the loop that copies the argument's elements stands behind a test that involves the receiver (at "+bad+"): for some receivers the union lacks elements of the argument")
+	}
+	c.R.RequireMin("R20.11", typ+".Union: loops over the argument's elements", n, 1)
+}
+
+
+// ownHeap: v is the heap of the queue recv - the address of its heap field, the queue itself seen as its heap type
+// (type heapAdapter Queue), or what a helper of the package makes of the queue in one of these ways.
+func ownHeap(v ssa.Value, recv ssa.Value, heapField string, depth int) bool {
+	switch x := v.(type) {
+	case *ssa.FieldAddr:
+		return heapField != "" && x.X == recv && core.FieldName(x) == heapField
+	case *ssa.ChangeType:
+		return x.X == recv
+	case *ssa.Convert:
+		return x.X == recv
+	case *ssa.Call:
+		g := x.Call.StaticCallee()
+		if g == nil || depth > 1 || len(g.Blocks) == 0 || len(x.Call.Args) != 1 || x.Call.Args[0] != recv || len(g.Params) != 1 {
+			return false
+		}
+		n := 0
+		for _, b := range g.Blocks {
+			if ret, ok := b.Instrs[len(b.Instrs)-1].(*ssa.Return); ok {
+				n++
+				if len(ret.Results) != 1 || !ownHeap(ret.Results[0], g.Params[0], heapField, depth+1) {
+					return false
+				}
+			}
+		}
+		return n > 0
+	}
+	return heapField != "" && strings.HasSuffix(core.AP(v), "."+heapField)
 }
